@@ -29,7 +29,7 @@ COMPONENTS = {"real": ["twisted.internet.base.ReactorBase.callFromThread/runUnti
                        "selectreactor/pollreactor/epollreactor doIteration", "asyncioreactor.AsyncioSelectorReactor.callFromThread/run + asyncio's SelectorEventLoop (real self-pipe)"],
               "stub": ["OS thread scheduling (detsim.threads baton)", "select/poll/epoll/selector syscalls (detsim.kernel pollers; real fds polled with zero timeout)", "wall clock"]}
 RULE = ("run = one tape-chosen reactor running its real main loop, 1..6 producer threads each issuing 1..12 callFromThread calls (some calls re-issue callFromThread from the reactor thread), "
-        "far-future timers and an idle listening socket present; interleaving chosen at poller boundaries and at lines of the reactor source with probability p in {0, .05, .2}; "
+        "far-future timers and an idle listening socket present; interleaving chosen at poller boundaries and at lines of the reactor source with probability p in {0, .05, .2} under a uniform scheduler, or under a PCT (priority) scheduler with few long-lasting pre-emptions; "
         "non-trivial = >= 2 producers and the reactor actually blocked in its poller at least once while producers were still running, or a line-level pre-emption fired")
 ASSUMPTIONS = ["the reactor's clock is strictly increasing between two readings (monotonic clock with sub-call resolution)", "CPython list.append / slice deletion are atomic between trace 'line' events (the GIL guarantee the code relies on)",
                "quantifier's 10^4-call figure is not reached: <= 72 calls per run (depth is bounded by baton hand-over cost, not soundness)"]
@@ -41,13 +41,16 @@ def run(sim):
     nprod = sim.draw_int(1, 6, "producers")
     preempt = sim.draw_choice([0.0, 0.05, 0.2], "preempt_p")
     with_timer = sim.draw_bool(0.5, "far_timer")
-    sim.config = {"reactor": kind, "producers": nprod, "preempt_p": preempt, "far_timer": with_timer}
+    policy = sim.draw_choice(["uniform", "pct"], "sched_policy")
+    if policy == "pct" and preempt:
+        preempt = sim.draw_choice([0.004, 0.015], "pct_change_p")   # few, long-lasting pre-emptions (see detsim.threads.Scheduler)
+    sim.config = {"reactor": kind, "producers": nprod, "preempt_p": preempt, "far_timer": with_timer, "policy": policy}
     now = [0.0]
     kern = K.Kernel(sim)
     kern.permute_ready = False
     files = ("internet/base.py", "internet/posixbase.py", "internet/_signals.py", "internet/asyncioreactor.py", "internet/selectreactor.py",
              "internet/pollreactor.py", "internet/epollreactor.py")
-    sched = T.Scheduler(sim, trace_files=files if preempt else (), preempt_p=preempt)
+    sched = T.Scheduler(sim, trace_files=files if preempt else (), preempt_p=preempt, policy=policy)
     issued = []          # (producer, k) in issue order
     ran = []             # (producer, k) in run order
     ran_thread = []
